@@ -7,8 +7,8 @@ ADDED = {
  "C02": "cov-* (stages of every predicate), sign-underflow, float-sign-reversal",
  "C03": "t-junctions, near-antipodal-edges",
  "C04": "nested-complements (incl. polar families), cov-*, decoded-polygons",
- "C05": "cap-grid, cap-bound-alignment, covering-histories, snapped-polygons, index-cell-corner-leaves, cov-*, corner-cut loops",
- "C06": "index-histories, remove-last-histories, cov-* (shape contract of every constructor, leaf piles, clipping), small-loop-inside-huge-loop",
+ "C05": "cap-grid, cap-bound-alignment, covering-histories, snapped-polygons, index-cell-corner-leaves, cov-*, corner-cut loops, east-west polyline",
+ "C06": "index-histories, remove-last-histories, cov-* (shape contract of every constructor, leaf piles, clipping), small-loop-inside-huge-loop, three-face-edge",
  "C07": "cov-* (relation visitors, wedges, nesting), loop-reuse-relations, nested families",
  "C08": "45-51 indexes, interiors, derived limits, brute/optimized differential, reuse-histories, compact-index-targets, index-target-max-error",
  "C09": "encode/Invert/encode histories, reader-kinds",
